@@ -642,6 +642,8 @@ def check_block_seek(ctx):
 
 
 def check(ctx):
+    from . import c08 as _c08
+    _c08.check_readers(ctx)        # the iterator's sequence and its pinned state are captured in one critical section
     from . import tablefmt as _tf2
     _tf2.check_twoiter_status(ctx)   # an error met while skipping blocks stays visible
     check_block_seek(ctx)
